@@ -34,6 +34,8 @@ class CallGraph:
     def __init__(self, repo):
         self.repo = repo
         self.unresolved = set()
+        self._weak = False
+        self.weak = {}
         self.by_name = collections.defaultdict(list)
         for f in repo.all_funcs():
             self.by_name[f.name].append(f)
@@ -121,6 +123,7 @@ class CallGraph:
                     cands = [g for g in self.by_name.get(f.attr, []) if g.cls is not None]
                     if cands:
                         self.unresolved.add((fn.q, U(f)))
+                        self._weak = True
                         out += cands
         return out
 
@@ -130,6 +133,12 @@ class CallGraph:
             if isinstance(n, ast.Assign) and isinstance(n.value, ast.Call) and isinstance(n.value.func, ast.Name) and n.value.func.id in self.repo.classes:
                 for t in n.targets:
                     local_ctors[U(t)] = n.value.func.id
+            # element type of the statement list: for x in self.statements / enumerate(self.statements) / statements[a:b]
+            if isinstance(n, (ast.For, ast.comprehension)) and "statements" in U(n.iter) and "Statement" in self.repo.classes:
+                t = n.target
+                if isinstance(t, ast.Tuple) and t.elts:
+                    t = t.elts[-1]
+                local_ctors[U(t)] = "Statement"
         self._walk2(fn, stmts, stack, acc, local_ctors)
 
     def _walk2(self, fn, stmts, stack, acc, local_ctors):
@@ -155,30 +164,33 @@ class CallGraph:
             for e in exprs:
                 for cnode in ast.walk(e):
                     if isinstance(cnode, ast.Call):
+                        self._weak = False
                         for cal in self.callees(fn, cnode, local_ctors):
-                            acc.append(("call", cal.q, stack, cnode))
+                            acc.append(("call" if not self._weak else "call?", cal.q, stack, cnode))
             for b in sub_bodies:
                 self._walk2(fn, b, stack, acc, local_ctors)
 
     def escapes(self):
-        """q -> set of (exception class, origin 'Func:line')"""
-        esc = {q: set() for q in self.sites}
+        """q -> set of (exception class, origin 'Func:line'); self.weak[q] holds the pairs derivable only through name-resolved (CHA) calls"""
+        esc = {q: {} for q in self.sites}      # (exc, origin) -> weak flag (False = established through resolved calls)
         changed = True
         while changed:
             changed = False
             for q, acc in self.sites.items():
                 for kind, what, stack, node in acc:
                     if kind == "raise":
-                        items = [(what, "%s:%d" % (q, node.lineno))]
+                        items = [((what, "%s:%d" % (q, node.lineno)), False)]
                     else:
-                        items = list(esc.get(what, ()))
-                    for exc, origin in items:
+                        items = [(k, w or kind == "call?") for k, w in esc.get(what, {}).items()]
+                    for (exc, origin), weak in items:
                         if any(self.catches(h, exc) for h in stack):
                             continue
-                        if (exc, origin) not in esc[q]:
-                            esc[q].add((exc, origin))
+                        cur = esc[q].get((exc, origin))
+                        if cur is None or (cur and not weak):
+                            esc[q][(exc, origin)] = weak
                             changed = True
-        return esc
+        self.weak = {q: {k for k, w in d.items() if w} for q, d in esc.items()}
+        return {q: set(d) for q, d in esc.items()}
 
     def reachable_from(self, q):
         seen = {q}
@@ -186,7 +198,7 @@ class CallGraph:
         while stack:
             a = stack.pop()
             for kind, what, st, node in self.sites.get(a, []):
-                if kind == "call" and what not in seen:
+                if kind in ("call", "call?") and what not in seen:
                     seen.add(what)
                     stack.append(what)
         return seen
@@ -206,7 +218,7 @@ class CallGraph:
         while stack:
             a = stack.pop()
             for kind, what, st, node in self.sites.get(a, []):
-                if kind == "call" and what not in seen:
+                if kind in ("call", "call?") and what not in seen:
                     seen.add(what)
                     stack.append(what)
         return seen
